@@ -164,6 +164,44 @@ def run(ctx, rep):
             rep.violated(key, "'%s' shows %s with %d decimals" % (label.strip(), ".".join(path), prec), construct=loc_of(pbody),
                          why="prints %s with precision %s" % (tm.show(hole.value, 4)[:120], hole.precision))
     rep.floor("plain-labels", seen, 15)
+    # the two weighted-energy sections: everything printed under "(paso A)" comes from we.a / we.a_by_srv, everything
+    # under "(paso B)" from we.b / we.b_by_srv (totals and the per-service table)
+    section = None
+    nsec = {"a": 0, "b": 0}
+    bad_sec = []
+    for seg in flat:
+        if seg[0] == "lit":
+            if "(paso A)" in seg[1]:
+                section = "a"
+            elif "(paso B)" in seg[1]:
+                section = "b"
+            elif "\n** " in seg[1] or seg[1].startswith("** "):
+                section = None
+            continue
+        if section is None:
+            continue
+        terms = []
+        if seg[0] == "hole" and isinstance(getattr(seg[1], "value", None), tm.T):
+            terms.append(seg[1].value)
+        elif seg[0] == "rep" and len(seg) > 3 and isinstance(seg[3], tm.T):
+            terms.append(seg[3])
+        for t in terms:
+            fields = set(x.a[3] for x in tm.subterms(t) if x.op == "proj" and x.a[3] in ("a", "b", "a_by_srv", "b_by_srv"))
+            if not fields:
+                continue
+            want = {section, section + "_by_srv"}
+            nsec[section] += 1
+            if not fields <= want:
+                bad_sec.append("under (paso %s) the report prints %s: %s" % (section.upper(), sorted(fields), tm.show(t, 3)[:100]))
+    if bad_sec:
+        rep.violated("C17/X3/steps", "the step A and step B sections of the plain report print the step A / step B results "
+                     "(totals and per-service table)", construct=loc_of(pbody), why="; ".join(bad_sec)[:400])
+    elif nsec["a"] >= 4 and nsec["b"] >= 4:
+        rep.discharged("C17/X3/steps", "step A section prints we.a and we.a_by_srv, step B section prints we.b and we.b_by_srv",
+                       derivation="%d + %d values and tables" % (nsec["a"], nsec["b"]))
+    else:
+        rep.violated("C17/X3/steps", "the plain report has a step A and a step B section with totals and per-service tables",
+                     construct=loc_of(pbody), why="found %s printed values" % nsec)
     # sorted key/value lists (stable tables)
     sorted_lists = [s for s in flatten_all(pdoc) if s[0] == "rep"]
     unsorted = []
